@@ -698,6 +698,9 @@ func bodyDiff(a, b []byte) string {
 	var sa, sb string
 	if json.Unmarshal(a, &sa) == nil && json.Unmarshal(b, &sb) == nil {
 		// Write(value) for a JSON client: the echo text as one JSON string
+		if sa == sb {
+			return "json string differs only in escaping"
+		}
 		return lineDiff([]byte(sa), []byte(sb))
 	}
 	var ja, jb map[string]any
@@ -884,7 +887,7 @@ func compare(a, b answer, bodyNote string) []diff {
 	}
 	if !bodySame {
 		what := bodyDiff(ab, bb)
-		if strings.Contains(what, "body.") || strings.HasPrefix(what, "bytes") || what == "json field body" {
+		if strings.Contains(what, "body.") || strings.HasPrefix(what, "bytes") || what == "json field body" || strings.Contains(what, "only in escaping") {
 			// the echo of the request body differs: say what kind of body it was
 			what += bodyNote
 		}
